@@ -469,7 +469,9 @@ impl<'a> World<'a> {
                         // a zero 6-byte label is never a label (padding pattern): nothing may resolve to it
                         self.allowed = if l.is_zero6() { None } else { Some(l) };
                     }
-                    LT_BCAST => self.allowed = None,
+                    // the nearest preceding start/complete packet now carries the broadcast label: a re-use label may
+                    // resolve to it (or be refused)
+                    LT_BCAST => self.allowed = Some(Lab::Bcast),
                     _ => {}
                 },
                 Ok(_) => {}
@@ -484,7 +486,9 @@ impl<'a> World<'a> {
                                     let l = Lab::from_wire(lt, &bytes[off..off + ll]);
                                     self.allowed = if l.is_zero6() { None } else { Some(l) };
                                 }
-                                LT_BCAST => self.allowed = None,
+                                // the nearest preceding start/complete packet now carries the broadcast label: a re-use label may
+                    // resolve to it (or be refused)
+                    LT_BCAST => self.allowed = Some(Lab::Bcast),
                                 _ => {}
                             }
                         }
@@ -611,10 +615,11 @@ impl<'a> World<'a> {
         if let RxRes::Ok(DecapStatus::CompletedPkt(b, md), _) = &r {
             let known = self.rx.led.borrow().out.contains_key(&(b.as_ptr() as usize));
             if !known {
-                let v = Violation::new("C08", "C08.unknown_buffer_handed_out", kind_site.clone(), format!("the buffer delivered with a completed PDU ({} bytes long, PDU {} bytes) is not one the memory handed to the decapsulator: buffers are being fabricated", b.len(), md.pdu_len()));
-                if self.report(st, v) {
-                    return (true, consumed);
-                }
+                // a PDU delivered in a buffer the memory never handed out (for instance a zero-length box for an empty
+                // PDU): C08 speaks about the buffers that were provisioned, and each of those is still in exactly one
+                // place; counted, not reported (an earlier revision reported it, see DESIGN 8.4 item 15)
+                st.inc("delivered_in_a_buffer_not_from_the_memory");
+                let _ = md;
             }
         }
         match r {
